@@ -48,6 +48,33 @@ def createProof (H : List UInt8 → List UInt8) (P : List Nat → Bool) (root : 
   let d ← info.depthAt 0
   pure (proofCell h d pr)
 
+/-! ### specification of pruning: what the pruned tree is, in terms of the DEFINITION of hash and depth -/
+
+mutual
+/-- the tree with the positions in `P` replaced by pruned branches holding the level-0 hash and depth (TON
+definition, `Spec.hashAt`/`Spec.depthAt`) of the subtree they replace; ancestors' masks are the OR of their
+children's masks -/
+def specPrune (H : List UInt8 → List UInt8) (P : List Nat → Bool) : List Nat → Cell → Cell
+  | path, .mk ty mask bits refs =>
+    if P path then prunedCell (Spec.hashAt H (.mk ty mask bits refs) 0) (Spec.depthAt (.mk ty mask bits refs) 0)
+    else
+      let kids := specPruneList H P path 0 refs
+      .mk ty (kids.foldl (fun m k => m ||| k.mask) mask) bits kids
+def specPruneList (H : List UInt8 → List UInt8) (P : List Nat → Bool) : List Nat → Nat → List Cell → List Cell
+  | _, _, [] => []
+  | path, i, c :: cs => specPrune H P (path ++ [i]) c :: specPruneList H P path (i + 1) cs
+end
+
+mutual
+/-- trees the prover supports: well-formed, level 0 throughout, only ordinary and library cells -/
+def plain : Cell → Bool
+  | .mk ty mask bits refs =>
+    (ty == tyOrdinary || ty == tyLibrary) && mask == 0 && Spec.wfNode ty mask bits refs && plainL refs
+def plainL : List Cell → Bool
+  | [] => true
+  | c :: cs => plain c && plainL cs
+end
+
 /-- the cell at `path` below `c` (`Cursor.Ref` chain); `none` = `c.cell.refs[ref]` out of range, a Go panic -/
 def cellAt : Cell → List Nat → Option Cell
   | c, [] => some c
